@@ -110,6 +110,55 @@ def requested_input_jobs():
     return jobs
 
 
+def cleanup_model(run, tier, seed):
+    """spec/cache/Cleanup.tla: one cleanup_cache() call with the real byte arithmetic - every threshold between 'never reached' and
+    'below the inputs', every importance, ties - checked by TLC and every terminal state executed on the real function."""
+    from .. import cleanup_engine as CE
+    jobs = [dict(variant=seed % 2, order=[2, 0, 3, 1], sinces=[-2, -1, 1, 2, 6], ces=[1, 3], counts=[6])]
+    if tier == "thorough":
+        jobs = [dict(variant=0, order=[2, 0, 3, 1], sinces=[-2, -1, 0, 1, 2, 6], ces=[1, 3], counts=[6, 7]),
+                dict(variant=1, order=[0, 1, 2, 3], sinces=[-2, -1, 0, 1, 2, 6], ces=[1, 3], counts=[6, 7]),
+                dict(variant=2, order=[4, 2, 0, 3, 1], sinces=[-2, -1, 1, 2, 6], ces=[1, 3], counts=[6]),
+                dict(variant=3, order=[1, 0, 4, 2, 3], sinces=[-2, -1, 1, 2, 5], ces=[2, 20], counts=[20])]
+    total = 0
+    shapes = {}
+    drifted = set()
+    for jb in jobs:
+        res, objs, order = CE.run_model(**jb)
+        if res.violated:
+            raise RuntimeError(f"Cleanup.tla violates {res.violated} (the model of cleanup_cache breaks a C03 clause): {jb}")
+        run.add_tlc(res, f"Cleanup.tla: one cleanup_cache call, objects {list(objs)}, age-table order {order}, since in {jb['sinces']}, "
+                         f"clear_every in {jb['ces']}, count in {jb['counts']}, {len(CE.thresholds(objs))} memory thresholds")
+        for st in res.printed:
+            out = CE.replay_state(st, objs, order)
+            total += 1
+            kind = (len(st["removed"]), st["npass"], bool(st["frozen"]), st["thr"] == 0)
+            shapes[kind] = shapes.get(kind, 0) + 1
+            run.count(("cleanup", jb["variant"]) + kind if st["removed"] else None)
+            if total <= 2 and st["removed"]:
+                run.sample({"cleanup_state": st})
+            for clause, msg in out:
+                text = (f"cleanup_cache() on {{key: calculations since last access}} = {st['since']} (-2 not cached, -1 no age entry), frozen {st['frozen']}, "
+                        f"memory threshold {st['thr']} bytes, clear_cache_every_nbr_calc={st['ce']}, calculation_count={st['count']}: {msg}")
+                if clause in ("FrozenNeverEvicted", "FrozenNeverAltered", "AgeTableSubsetOfCache", "CleanupNeverRaises", "CleanupTerminates"):
+                    run.violation({"clause": clause, "via": "cleanup_cache"}, text, {"cleanup_state": st, "objects": jb["variant"], "order": order})
+                elif clause not in drifted:
+                    # which unfrozen entries go, and in which order, is the code's policy, not the property: the model no longer describes it
+                    drifted.add(clause)
+                    run.note_drift(f"Cleanup.tla no longer predicts cleanup_cache ({clause}): " + text)
+    # liveness: the while loop of the memory phase ends (weak fairness), smaller alphabet
+    res, _, _ = CE.run_model(1, [3, 2, 1, 0], [-2, 1, 2, 6], [1, 3], [6], emit=False, liveness=True)
+    if res.violated:
+        raise RuntimeError(f"Cleanup.tla: {res.violated} violated under fairness (the model's memory loop does not terminate)")
+    run.add_tlc(res, "Cleanup.tla liveness: Terminates under weak fairness")
+    never = [a for a in ("Enter", "Pass1", "Recount", "LoopExit", "LoopRemove") if res.coverage.get(a, (0, 0))[1] == 0]
+    if never:
+        raise RuntimeError(f"vacuous Cleanup.tla run: actions never taken: {never}")
+    run.info["cleanup_calls_replayed"] = total
+    run.info["cleanup_outcome_classes"] = len(shapes)
+    run.traces += total
+
+
 def run(tier, seed):
     run = Run("C03", tier, seed)
     opts = {}
@@ -144,6 +193,7 @@ def run(tier, seed):
     run.info["apalache_inductive_invariant"] = {k: v for k, v in ind.items() if k != "tail"}
     if not (ind["base"] and ind["step"] and ind["negative_control_rejected"]):
         raise RuntimeError("Apalache: IndInv of CacheSafety is not established: " + str(ind))
+    cleanup_model(run, tier, seed)
     importance_jobs(plan, opts, graph, seed)
     CC.execute(run, "C03", graph, plan, opts, seed, max_traces=500 if tier == "quick" else 4000)
     drivers(run, plan, opts, seed, tier)
@@ -153,7 +203,9 @@ def run(tier, seed):
                 "extracted from the working tree with clear_cache_every_nbr_calc in {1,2,3} and a memory threshold below the inputs; freeze_data and "
                 "partial load_data calls between requests; random importance overrides) replayed on the real AurelCore; after every request: frozen entries present and "
                 "byte-identical, last_accessed subset of data, no exception from cleanup_cache, wall-clock guard; every nested step checked by TLC "
-                "trace validation against the named invariants. Non-trivial = >= 2 requests with >= 1 eviction or guard hit")
+                "trace validation against the named invariants. Cleanup.tla: every situation one cleanup_cache() call can start from (4-5 real objects of different kinds; "
+                "cached / aged / frozen; 8 memory thresholds from 0 to 1 GB; regular clean-up due or not) with the real byte counts as constants - 12 invariants, "
+                "termination, and every terminal state executed on the real function (cached set, age table, deletion order, survivors untouched). Non-trivial = >= 2 requests with >= 1 eviction or guard hit")
     run.assumptions = ["memory threshold 'tiny' = 1e-9 GB (below the size of the frozen inputs): the while loop of cleanup_cache runs to its end at every calculation",
                        "liveness is checked on the small sub-graph only; on the real graph non-termination is caught by NoReentrancy/StackBounded and the wall-clock guard"]
     return run.finish()
